@@ -1,24 +1,24 @@
 SPECIFICATION SSpec
 CONSTANTS
   Validators = {1, 2, 3}
-  SlotSpace = {8, 9}
-  Nows = {7, 8, 9}
-  Committees = {0, 1}
-  Sizes = {8, 40}
-  Targets = {2, 16}
-  HVals = {0, 1, 4, 20}
+  SlotSpace = {8, 9, 10}
+  Nows = {7, 8, 9, 10}
+  Committees = {0, 1, 2}
+  Sizes = {8, 12, 40}
+  Targets = {2, 4}
+  HVals = {0, 1, 2, 3, 4, 6, 10, 12, 20, 30, 60, 420}
   HMod = 840
-  MaxDuties = 4
+  MaxDuties = 3
   MaxSubs = 2
   SPE = 4
   Ep = 2
-  MaxRefresh = 2
-  MaxChanges = 1
+  MaxRefresh = 3
+  MaxChanges = 3
   MaxHeld = 1
   SignerMayFail = TRUE
-  MoveFan = 1
-  ScenLen = 11
-  SetupFan = 8
-  SetupLen = 4
+  MoveFan = 6
+  ScenLen = 12
+  SetupFan = 12
+  SetupLen = 3
 INVARIANTS Emit TypeOK AllFutureSubscribed AggregatorRuleExact SubscriptionHistoryIndependent InfoInForceComplete EveryAggregatorCommitteeScheduled
 CHECK_DEADLOCK FALSE
